@@ -300,6 +300,7 @@ func runCase(c Case) (*ev.Failure, bool) {
 	release := make(chan struct{})   // idle clients close when released
 	afterStop := make(chan struct{}) // silent clients stay connected until Stop has returned
 	var silentUp atomic.Int32
+	var dialStuck atomic.Bool
 	for ci, cl := range c.Clients {
 		cw.Add(1)
 		writers.Add(1)
@@ -330,11 +331,14 @@ func runCase(c Case) (*ev.Failure, bool) {
 			case "tls":
 				roots := x509.NewCertPool()
 				roots.AppendCertsFromPEM(ca.CertPEM)
-				conn, err = tls.Dial("tcp", addr, &tls.Config{RootCAs: roots, ServerName: "localhost"})
+				conn, err = tls.DialWithDialer(&net.Dialer{Timeout: 25 * time.Second}, "tcp", addr, &tls.Config{RootCAs: roots, ServerName: "localhost"})
 			default:
 				conn, err = net.Dial(in.Protocol, addr)
 			}
 			if err != nil {
+				if ne, ok := err.(net.Error); ok && ne.Timeout() && !c.StopDuring {
+					dialStuck.Store(true) // the collector is up and was not asked to stop: 25 s without a session
+				}
 				return // e.g. the collector was stopped before this client connected
 			}
 			defer conn.Close()
@@ -393,6 +397,9 @@ func runCase(c Case) (*ev.Failure, bool) {
 		// wait until every client has written what it is going to write, then until every complete
 		// message of the stream transports was delivered
 		writers.Wait()
+		if dialStuck.Load() {
+			return ev.Failf("a %s client could not establish its session within 25 s while %d other clients that never send anything held connections: one connection's silence stalls the others", c.Proto, silentUp.Load()), peak.Load() >= 3
+		}
 		if c.Proto != "udp" {
 			for end := time.Now().Add(30 * time.Second); ; time.Sleep(500 * time.Microsecond) {
 				missing := 0
@@ -604,7 +611,7 @@ func runQuiet(proto string, quiet time.Duration) (fl *ev.Failure) {
 		if proto == "tls" {
 			roots := x509.NewCertPool()
 			roots.AppendCertsFromPEM(ca.CertPEM)
-			return tls.Dial("tcp", cp.GetAddress().String(), &tls.Config{RootCAs: roots, ServerName: "localhost"})
+			return tls.DialWithDialer(&net.Dialer{Timeout: 25 * time.Second}, "tcp", cp.GetAddress().String(), &tls.Config{RootCAs: roots, ServerName: "localhost"})
 		}
 		return net.Dial("tcp", cp.GetAddress().String())
 	}
@@ -766,7 +773,7 @@ func runMany(c Many) (fl *ev.Failure) {
 		if c.Proto == "tls" {
 			roots := x509.NewCertPool()
 			roots.AppendCertsFromPEM(ca.CertPEM)
-			return tls.Dial("tcp", cp.GetAddress().String(), &tls.Config{RootCAs: roots, ServerName: "localhost"})
+			return tls.DialWithDialer(&net.Dialer{Timeout: 25 * time.Second}, "tcp", cp.GetAddress().String(), &tls.Config{RootCAs: roots, ServerName: "localhost"})
 		}
 		return net.Dial("tcp", cp.GetAddress().String())
 	}
@@ -1156,7 +1163,7 @@ func runLinkLocal(proto string) (fl *ev.Failure) {
 		if proto == "tls" {
 			roots := x509.NewCertPool()
 			roots.AppendCertsFromPEM(ca.CertPEM)
-			conn, err = tls.Dial("tcp", cp.GetAddress().String(), &tls.Config{RootCAs: roots, ServerName: "localhost"})
+			conn, err = tls.DialWithDialer(&net.Dialer{Timeout: 25 * time.Second}, "tcp", cp.GetAddress().String(), &tls.Config{RootCAs: roots, ServerName: "localhost"})
 		} else {
 			conn, err = net.Dial("tcp", cp.GetAddress().String())
 		}
